@@ -8,6 +8,7 @@ import (
 	"runtime"
 	"sort"
 	"strconv"
+	"strings"
 	"sync"
 	"time"
 
@@ -39,7 +40,7 @@ func cfgFor(prop, tier string) tierCfg {
 		return tierCfg{pool: 5000, scenarios: 9000, profile: Profile{MaxLen: 2960, MaxRSEcc: 200, ScaleMax: 400, HeavyTail: true}, maxOps: 250, budget: 50 * time.Minute, shrinkEvals: 300, boundaryGroups: 40, marathons: 30, marathonLen: 6000}
 	case "C16":
 		if quick {
-			return tierCfg{pool: 360, scenarios: 420, raceFrac: 0.3, profile: Profile{MaxLen: 110, MaxRSEcc: 68, ScaleMax: 120}, maxOps: 4, maxW: []int{2, 2, 3, 4, 4, 8, 16}, budget: 4 * time.Minute, shrinkEvals: 120, boundaryGroups: 10}
+			return tierCfg{pool: 360, scenarios: 420, raceFrac: 0.3, profile: Profile{MaxLen: 110, MaxRSEcc: 68, ScaleMax: 120}, maxOps: 4, maxW: []int{2, 2, 3, 4, 4, 8, 16, 32}, budget: 4 * time.Minute, shrinkEvals: 120, boundaryGroups: 10}
 		}
 		return tierCfg{pool: 3000, scenarios: 10000, raceFrac: 0.3, profile: Profile{MaxLen: 700, MaxRSEcc: 200, ScaleMax: 250, HeavyTail: true}, maxOps: 6, maxW: []int{2, 2, 3, 4, 8, 8, 16, 32, 64}, budget: 60 * time.Minute, shrinkEvals: 300, boundaryGroups: 40}
 	default: // C18
@@ -431,15 +432,33 @@ func genC16(seed uint64, cfg tierCfg) ([]*Scenario, []Call) {
 			same = pool[qrdm[r.intn(len(qrdm))]]
 		}
 		readers := len(seg.Shared) > 0 && r.chance(0.4) // everybody reads one shared barcode first
+		// long programs of cheap calls by a few callers: free lists, pools and counters that only
+		// misbehave after many operations, under contention
+		long := r.chance(0.05)
+		var cheapSet []Call
+		if long {
+			w = r.rangeIn(2, 4)
+			for len(cheapSet) < 12 {
+				c := genFamily(r, Profile{MaxLen: 20, MaxRSEcc: 20, ScaleMax: 60}, families[r.intn(len(families))])
+				if len(c.B) <= 30 {
+					cheapSet = append(cheapSet, c)
+				}
+			}
+		}
 		for wi := 0; wi < w; wi++ {
 			n := r.rangeIn(1, cfg.maxOps)
 			if w >= 16 {
 				n = r.rangeIn(1, 2)
 			}
+			if long {
+				n = r.rangeIn(40, 120)
+			}
 			var prog []Call
 			for ci := 0; ci < n; ci++ {
 				var c Call
 				switch {
+				case long:
+					c = cheapSet[r.intn(len(cheapSet))]
 				case readers && ci == 0:
 					src := seg.Shared[0]
 					c = Call{Fn: "same", Src: &src, Share: true}
@@ -483,6 +502,9 @@ func genC16(seed uint64, cfg tierCfg) ([]*Scenario, []Call) {
 	return scs, pool
 }
 
+// stepLimit bounds the estimated size of one concurrent scenario (set per tier).
+var stepLimit = 1_500_000
+
 // finishC16 sets the parts of a scenario that need the references: step
 // estimate, cap, policy, stalls.
 func finishC16(sc *Scenario, refs *RefTable) {
@@ -501,6 +523,20 @@ func finishC16(sc *Scenario, refs *RefTable) {
 	for i := range seg.Shared {
 		if ref := refs.get(&seg.Shared[i]); ref != nil {
 			est += ref.Steps + 2
+		}
+	}
+	// bound the size of a scenario: many callers making large calls cost millions of steps
+	limit := stepLimit
+	if est > limit {
+		last := len(seg.Phases) - 1
+		for est > limit && len(seg.Phases[last]) > 2 {
+			w := len(seg.Phases[last]) - 1
+			for i := range seg.Phases[last][w] {
+				if ref := refs.get(&seg.Phases[last][w][i]); ref != nil {
+					est -= ref.Steps + 2
+				}
+			}
+			seg.Phases[last] = seg.Phases[last][:w]
 		}
 	}
 	seg.Policy = genPolicy(r, est+10)
@@ -731,6 +767,19 @@ func runCheck(prop, tier string) int {
 		fmt.Printf("%d capacity-boundary groups (%d calls) probed in %.1fs\n", len(groups), nb, time.Since(t0).Seconds())
 	}
 
+	if v := os.Getenv("VERIF_ONLY_IDS"); v != "" { // debugging: keep only the listed scenario ids
+		want := map[string]bool{}
+		for _, f := range strings.Split(v, ",") {
+			want[strings.TrimSpace(f)] = true
+		}
+		var keep []*Scenario
+		for _, sc := range scs {
+			if want[strconv.Itoa(sc.ID)] {
+				keep = append(keep, sc)
+			}
+		}
+		scs = keep
+	}
 	if v := os.Getenv("VERIF_DUMP_SCENARIOS"); v != "" {
 		if jb, err := json.Marshal(scs); err == nil {
 			os.WriteFile(v, jb, 0o644)
@@ -758,6 +807,9 @@ func runCheck(prop, tier string) int {
 	}
 	fmt.Printf("%d fresh-process references in %.1fs (%d unavailable)\n", ck.refs.runs, time.Since(t0).Seconds(), st.RefUnavailable)
 	if prop == "C16" {
+		if tier == "thorough" {
+			stepLimit = 6_000_000
+		}
 		for _, sc := range scs {
 			finishC16(sc, ck.refs)
 		}
